@@ -217,6 +217,7 @@ def run(chk, prog):
     one_string_decoder(chk, prog)
     objects_are_fresh(chk, prog)
     identifier_keys_test_the_value_kind(chk, prog, tr)
+    string_reader_refuses_only_raw_controls(chk, prog, tr)
 
 
 def _quote_consts(fn):
@@ -526,3 +527,241 @@ def number_reader_refuses_only_non_numbers(chk, prog):
                        'after str::parse::<i32> read_number can return without the float parse and without an integer',
                        u.loc(p))
     chk.floor(RN, 'error exits of read_number that concern the number text', n, 1)
+
+
+# ---- sets of characters as sorted disjoint closed intervals over the code points
+_CH_MAX = 0x10FFFF
+_CH_FULL = ((0, _CH_MAX),)
+
+
+def _ch_norm(iv):
+    out = []
+    for lo, hi in sorted((max(0, a), min(_CH_MAX, b)) for a, b in iv):
+        if lo > hi:
+            continue
+        if out and lo <= out[-1][1] + 1:
+            out[-1] = (out[-1][0], max(out[-1][1], hi))
+        else:
+            out.append((lo, hi))
+    return tuple(out)
+
+
+def _ch_union(a, b):
+    return _ch_norm(tuple(a) + tuple(b))
+
+
+def _ch_compl(a):
+    out, nxt = [], 0
+    for lo, hi in _ch_norm(a):
+        if lo > nxt:
+            out.append((nxt, lo - 1))
+        nxt = hi + 1
+    if nxt <= _CH_MAX:
+        out.append((nxt, _CH_MAX))
+    return tuple(out)
+
+
+def _ch_inter(a, b):
+    return _ch_norm([(max(l1, l2), min(h1, h2)) for l1, h1 in a for l2, h2 in b])
+
+
+def _ch_subset(a, b):
+    return not _ch_inter(a, _ch_compl(b))
+
+
+def _ch_show(a):
+    def one(x):
+        return 'U+%04X' % x
+    return ', '.join(one(lo) if lo == hi else '%s..%s' % (one(lo), one(hi)) for lo, hi in a[:4]) + (' ..' if len(a) > 4 else '')
+
+
+def string_reader_refuses_only_raw_controls(chk, prog, tr):
+    RR = 'C14.string-reader-refuses-only-raw-controls'
+    chk.rule(RR, 'In JsonTokenizer::read_string (streaming loader) the only characters that, read raw (not after a '
+             'backslash), can lead to an error exit are those below U+0020, the quote and the backslash: serde_json (the '
+             'other loader) accepts every other character raw inside a string, U+007F and U+0080-U+009F included. Decided '
+             'by carrying the set of characters the one just read can be along the paths of one loop trip - narrowed at '
+             'every comparison of that character with constants, unchanged by a classification predicate such as '
+             'char::is_control - up to each error exit; the part of the body run in the after-a-backslash state (the '
+             'escape table, C14.escape-table) is left out. Raw characters below U+0020 that are accepted although '
+             'serde_json refuses them concern malformed documents only and are not part of this clause.')
+    from analysis.wbf import err_exits
+    from analysis.defuse import du
+    f = prog.fn('JsonTokenizer::read_string')
+    if not chk.anchor(RR, 'JsonTokenizer::read_string', f):
+        return
+    g = cfg(f)
+    d = du(f)
+    READ = ('call:JsonTokenizer::read', 'via:JsonTokenizer::read')
+
+    def is_char(o, exact=True):
+        """The operand is the character just read (exact: not changed by arithmetic on the way)."""
+        if o.get('k') not in ('copy', 'move'):
+            return False
+        at = tr.prov(f, o)
+        if not any(a in READ for a in at):
+            return False
+        if any(a.startswith('call:') and a not in READ for a in at):
+            return False
+        return not (exact and any(a.startswith('op:') for a in at))
+
+    rblocks = {bb for bb, t in f.calls() if callee_short(t) == 'JsonTokenizer::read'}
+    if not chk.anchor(RR, 'a call of JsonTokenizer::read in read_string', sorted(rblocks)):
+        return
+    # where a trip starts: the character is taken out of the result of `read` (Ok / Continue payload)
+    gen = set()
+    for bb, si, s in f.stmts():
+        if s['k'] == 'assign' and 'p' not in s['pl'] and f.local_ty(s['pl']['l']) == 'char' and s['rv']['k'] == 'use' \
+                and s['rv']['op'].get('k') in ('copy', 'move') \
+                and any(pe['k'] == 'downcast' for pe in s['rv']['op']['pl'].get('p', [])) and is_char(s['rv']['op']):
+            gen.add(bb)
+    if not chk.anchor(RR, 'the character taken out of the result of JsonTokenizer::read', sorted(gen)):
+        return
+
+    def decision(bb):
+        """What the switch ending block bb tests about the character just read: [(target, set of characters for which the
+        edge is taken)] or None when it is not a comparison of that character with constants."""
+        t = f.blocks[bb]['term']
+        if not t or t['k'] != 'switch' or t['d'].get('k') not in ('copy', 'move'):
+            return None
+        listed = [v for v, _ in t['ts']]
+        if t.get('dty') == 'char':
+            if not is_char(t['d']):
+                return None
+            edges = [(tb, ((v, v),)) for v, tb in t['ts']]
+            edges.append((t['else'], _ch_compl([(v, v) for v in listed])))
+            return edges
+        # a boolean: copies and negations back to the comparison
+        o, flip = t['d'], False
+        for _ in range(8):
+            if 'p' in o['pl']:
+                return None
+            df = d.single_def(o['pl']['l'])
+            if df is None or df['kind'] != 'assign':
+                return None
+            rv = df['rv']
+            if rv['k'] == 'use' and rv['op'].get('k') in ('copy', 'move'):
+                o = rv['op']
+            elif rv['k'] == 'unop' and rv['op'] == 'Not' and rv['a'].get('k') in ('copy', 'move'):
+                o, flip = rv['a'], not flip
+            elif rv['k'] == 'binop' and rv['op'] in ('Eq', 'Ne', 'Lt', 'Le', 'Gt', 'Ge'):
+                op, a, b = rv['op'], rv['a'], rv['b']
+                if a.get('k') == 'const':
+                    a, b = b, a
+                    op = {'Lt': 'Gt', 'Le': 'Ge', 'Gt': 'Lt', 'Ge': 'Le'}.get(op, op)
+                if b.get('k') != 'const' or 'int' not in b or not is_char(a) \
+                        or rv.get('aty') not in ('char', 'u32', 'i32', 'u64', 'i64', 'usize', 'isize', 'u128', 'i128'):
+                    return None
+                k_ = b['int']
+                true_set = {'Eq': ((k_, k_),), 'Ne': _ch_compl(((k_, k_),)), 'Lt': ((0, k_ - 1),), 'Le': ((0, k_),),
+                            'Gt': ((k_ + 1, _CH_MAX),), 'Ge': ((k_, _CH_MAX),)}[op]
+                true_set = _ch_norm(true_set)
+                if flip:
+                    true_set = _ch_compl(true_set)
+                edges = [(tb, true_set if v != 0 else _ch_compl(true_set)) for v, tb in t['ts']]
+                if set(listed) == {0}:
+                    edges.append((t['else'], true_set))
+                elif set(listed) == {1}:
+                    edges.append((t['else'], _ch_compl(true_set)))
+                return edges
+            else:
+                return None
+        return None
+
+    decisions = {bb: e for bb in range(len(f.blocks)) for e in [decision(bb)] if e is not None}
+
+    def region(tgt, src):
+        """Blocks run only after the edge src -> tgt was taken."""
+        if g.pred[tgt] != [src]:
+            return set()
+        return {b for b in range(len(f.blocks)) if g.dominates(tgt, b)}
+
+    # the after-a-backslash state: a boolean variable of the source that becomes true only where the character read was
+    # the backslash; what is run only while it is true is the escape table
+    BACKSLASH = 92
+    after_backslash = set()
+    for bb, edges in decisions.items():
+        for tb, cs in edges:
+            if cs == ((BACKSLASH, BACKSLASH),):
+                after_backslash |= region(tb, bb)
+    sets_true, sets_other = {}, {}
+    for bb, si, s in f.stmts():
+        if s['k'] == 'assign' and 'p' not in s['pl'] and f.local_ty(s['pl']['l']) == 'bool' \
+                and f.local_name(s['pl']['l']) is not None:
+            o = s['rv'].get('op') if s['rv']['k'] == 'use' else None
+            if o is not None and o.get('k') == 'const' and o.get('bool') is False:
+                continue
+            (sets_true if o is not None and o.get('k') == 'const' and o.get('bool') is True else sets_other) \
+                .setdefault(s['pl']['l'], []).append(bb)
+    for bb, t in f.calls():
+        if 'p' not in t['dest'] and t['dest']['l'] in sets_true:
+            sets_other.setdefault(t['dest']['l'], []).append(bb)
+    escape_state = {l for l, bbs in sets_true.items() if l not in sets_other and all(b in after_backslash for b in bbs)}
+    escape_region = set(after_backslash)
+    for bb, t in f.terms():
+        if t['k'] != 'switch' or t['d'].get('k') not in ('copy', 'move') or 'p' in t['d']['pl']:
+            continue
+        l, flip = t['d']['pl']['l'], False
+        for _ in range(6):
+            if l in escape_state:
+                break
+            df = d.single_def(l)
+            if df is None or df['kind'] != 'assign':
+                break
+            rv = df['rv']
+            if rv['k'] == 'use' and rv['op'].get('k') in ('copy', 'move') and 'p' not in rv['op']['pl']:
+                l = rv['op']['pl']['l']
+            elif rv['k'] == 'unop' and rv['op'] == 'Not' and rv['a'].get('k') in ('copy', 'move') and 'p' not in rv['a']['pl']:
+                l, flip = rv['a']['pl']['l'], not flip
+            else:
+                break
+        if l not in escape_state:
+            continue
+        listed = {v for v, _ in t['ts']}
+        for v, tb in t['ts']:
+            if (v != 0) != flip:
+                escape_region |= region(tb, bb)
+        if (listed == {0} and not flip) or (listed == {1} and flip):
+            escape_region |= region(t['else'], bb)
+    chk.floor(RR, 'comparisons of the character read with constants in read_string', len(decisions), 2)
+
+    # forward: the set of characters the one just read can be, per block (no entry = not within a trip)
+    state = {}
+    work = sorted(gen)
+    for b in work:
+        state[b] = _CH_FULL
+    while work:
+        b = work.pop()
+        if b in rblocks or (b in escape_region and b not in gen):
+            continue
+        cur = _CH_FULL if b in gen else state.get(b)
+        if cur is None:
+            continue
+        edges = decisions.get(b)
+        outs = [(tb, _ch_inter(cur, cs)) for tb, cs in edges] if edges is not None else [(s, cur) for s in g.succ[b]]
+        for tb, cs in outs:
+            if not cs or tb in escape_region:
+                continue
+            new = _ch_union(state.get(tb, ()), cs)
+            if new != state.get(tb):
+                state[tb] = new
+                work.append(tb)
+
+    ALLOWED = _ch_norm(((0, 0x1f), (0x22, 0x22), (BACKSLASH, BACKSLASH)))
+    n = 0
+    for b, desc, src in err_exits(prog, f):
+        if src is not None and not (src[0] >= 0 and any(is_char(a, exact=False) for a in src[1]['args'])):
+            continue        # an error handed on from a callee that was not given the character
+        if b in escape_region or b not in state:
+            continue
+        n += 1
+        cs = state[b] if b not in gen else _CH_FULL
+        bad = _ch_inter(cs, _ch_compl(ALLOWED))
+        chk.decide(RR, chk.key(RR, 'error-exit', '#%d' % n), not bad,
+                   'reached only with the quote, the backslash or a character below U+0020 as the character read',
+                   'JsonTokenizer::read_string can take this error exit when the raw character just read is %s: the streaming '
+                   'loader refuses a string that serde_json (the default loader) reads - only U+0000-U+001F must be escaped '
+                   'in JSON; U+007F and U+0080-U+009F may stand raw' % _ch_show(bad), f.loc(b, 0))
+    if n == 0:
+        chk.ok(RR, chk.key(RR, 'no-error-exit-on-the-plain-character-path'),
+               'no error exit of read_string is reachable within a trip outside the after-a-backslash state', f.loc(0))
